@@ -16,6 +16,8 @@ import (
 type C07Plugin struct {
 	Name string `json:"name"`
 	Idx  string `json:"idx"`
+	// RegName, if set, is the name the plugin registers under (a second instance of plugin RegName)
+	RegName string `json:"reg_name,omitempty"`
 }
 
 type C07Fault struct {
